@@ -154,6 +154,7 @@ def run_case(case):
     t = BinaryTrie(db)
     res.emit("bin.reset", "ok")
     res.emit("bin.new", "0")
+    res.emit("bin.rrnew", "ok")
     model = {}
     roots = {t.root_hash: {}}
     universe = sorted({bytes.fromhex(op[1]) for op in case["ops"]})
@@ -197,6 +198,10 @@ def run_case(case):
                      "root=%s added=%s" % (hx(t.root_hash), ",".join("%s:%s" % ab for ab in added) if added else "-"))
         elif out == "exn NodeOverrideError":
             res.emit("bin.rawset 0 %s %s %d" % (hx(k), rv, 1 if kind == "delsub" else 0), out)
+        # the whole history at raw level, on the model's own root and database
+        if out in ("ok", "exn NodeOverrideError"):
+            res.emit("bin.rrop %s %s %d" % (hx(k), rv, 1 if kind == "delsub" else 0),
+                     "root=%s" % hx(t.root_hash) if out == "ok" else out)
         res.emit(line, out)
         res.tags.add("%s:%s" % (kind, "ok" if out == "ok" else "refused"))
         # oracle ---------------------------------------------------------------------------------
@@ -232,6 +237,7 @@ def run_case(case):
                 res.fail("db-entry-lost", "%r removed or changed a database entry" % (op,))
         res.emit("bin.root 0", hx(t.root_hash))
         res.emit("bin.db", ",".join("%s:%s" % (a.hex(), b.hex()) for a, b in sorted(db.items())) if db else "-")
+        res.emit("bin.rrdb", ",".join("%s:%s" % (a.hex(), b.hex()) for a, b in sorted(db.items())) if db else "-")
         want_root = canon_root(model)
         if t.root_hash != want_root:
             res.fail("root-not-canonical", "after %r the root is %s, the canonical encoding of %r hashes to %s"
@@ -251,6 +257,7 @@ def run_case(case):
                 res.emit("bin.get 0 %s" % hx(p), outg)
                 continue
             res.emit("bin.get 0 %s" % hx(p), outg)
+            res.emit("bin.rrget %s" % hx(p), outg)
             if g != model.get(p) or e != (p in model) or c != e or gi != g:
                 res.fail("wrong-value", "get(%r)=%r exists=%r, stored %r" % (p, g, e, model.get(p)))
         roots.setdefault(t.root_hash, dict(model))
